@@ -16,7 +16,7 @@ from . import core
 PROP = "C03"
 BATCH = 512
 BUDGET_S = {"quick": 130, "thorough": 1800}
-MAX_RUNS = {"quick": 700, "thorough": 10**9}
+MAX_RUNS = {"quick": 600, "thorough": 10**9}
 ENV0 = {"hashseed": 0, "cache": 1000}
 ENVS = [ENV0, {"hashseed": 1, "cache": 1000}, {"hashseed": 7, "cache": 25}, {"hashseed": 42, "cache": 1000}]
 REL_EQ = 1e-11
@@ -194,7 +194,7 @@ def generate(seed: int, run: int, tier: str) -> dict:
         if style == "mixed" and rng.random() < 0.3:
             ops.append({"op": "jump", "prefix": rng.choice(["SYM", "SYM", "FUN", "QTY"]), "to": _boundary(rng)})
         if style == "mixed" and rng.random() < 0.2:
-            ops.append({"op": "create", "kind": rng.choice(["Symbol", "Function", "Quantity", "CoordinateSystem", "IndexedSymbol", "VectorSymbol"]), "k": rng.choice([1, 3, 10, 50])})
+            ops.append({"op": "create", "kind": rng.choice(["Symbol", "Function", "Quantity", "CoordinateSystem", "IndexedSymbol", "VectorSymbol", "Symbolic"]), "k": rng.choice([1, 3, 10, 50])})
         ops.append({"op": "import", "m": m})
         if rng.random() < 0.15:
             ops.append({"op": "call", "m": m})
@@ -207,7 +207,7 @@ def generate(seed: int, run: int, tier: str) -> dict:
             ops.append({"op": "jump", "prefix": prefix, "to": _boundary(rng)})
     if style == "create":
         for _ in range(rng.choice([1, 2, 4])):
-            ops.append({"op": "create", "kind": rng.choice(["Symbol", "Function", "Quantity", "CoordinateSystem", "IndexedSymbol", "VectorSymbol"]), "k": rng.choice([1, 7, 9, 50, 99, 200])})
+            ops.append({"op": "create", "kind": rng.choice(["Symbol", "Function", "Quantity", "CoordinateSystem", "IndexedSymbol", "VectorSymbol", "Symbolic", "Symbolic"]), "k": rng.choice([1, 7, 9, 50, 99, 200])})
     if style == "nearby_calls":
         # the same functions used shortly before with equal or nearly equal arguments (values that
         # print alike), possibly from a sibling module of the same package
@@ -258,8 +258,30 @@ def _whole_catalogue_job(seed, tag, env, order_seed, n_observe, tests=False) -> 
     return _job(seed, tag, env, ops, timeout=1500)
 
 
-def systematic_jobs(tier: str, seed: int, ctx) -> list[dict]:
+def _package_order_jobs(seed, tier) -> list[dict]:
+    """For every catalogue package: import all of its modules in one seeded order and observe all of
+    them, then the same with the order reversed. For any two modules X, M of a package, X is
+    imported before M in one of the two jobs, so every ordered pair inside a package is covered."""
+    by_pkg: dict[str, list[str]] = {}
+    for m in modules():
+        by_pkg.setdefault(m.rsplit(".", 1)[0], []).append(m)
     jobs = []
+    for pkg in sorted(by_pkg):
+        mods = by_pkg[pkg]
+        if len(mods) < 2:
+            continue
+        rng = core.rng_for(seed, PROP, pkg, "pkgorder")
+        order = list(mods)
+        rng.shuffle(order)
+        for tag, seq in (("a", order), ("b", list(reversed(order)))):
+            for lo in range(0, len(seq), 24):  # long packages are observed in slices (each job still imports all)
+                ops = [{"op": "import", "m": m} for m in seq] + [{"op": "observe", "m": m} for m in seq[lo:lo + 24]]
+                jobs.append(_job(seed, f"sys:pkg:{pkg}:{tag}:{lo}", ENV0, ops, timeout=900))
+    return jobs
+
+
+def systematic_jobs(tier: str, seed: int, ctx) -> list[dict]:
+    jobs = _package_order_jobs(seed, tier)
     if tier == "thorough":
         for i, env in enumerate(ENVS):
             jobs.append(_whole_catalogue_job(seed, f"sys:all:{i}", env, i if i else -1, None))
@@ -276,7 +298,12 @@ def systematic_jobs(tier: str, seed: int, ctx) -> list[dict]:
         if tier == "thorough":
             places += [(1000 - j, 10 - min(j, 9), 100 - j) for j in range(5, 13)] + [(10000 - j, 100 - j, 1000 - j) for j in range(1, 9)] + [(1999, 10, 100), (299, 19, 29), (99, 1, 999996), (19999, 9, 1999)]
         for v, (to_sym, to_fun, to_qty) in enumerate(places):
-            ops = list(pre) + [{"op": "jump", "prefix": "SYM", "to": to_sym}, {"op": "jump", "prefix": "FUN", "to": to_fun}, {"op": "jump", "prefix": "QTY", "to": to_qty}, {"op": "observe", "m": m, "tests": tier == "thorough" and v < 3}]
+            extra = []
+            if to_sym == 99997:
+                # this placement also carries a creation history: the user's own wrappers whose printed
+                # names coincide with catalogue ones, a few functions, quantities and coordinate systems
+                extra = [{"op": "create", "kind": "Symbolic", "k": 1}, {"op": "create", "kind": "Function", "k": 3}, {"op": "create", "kind": "CoordinateSystem", "k": 2}]
+            ops = list(pre) + extra + [{"op": "jump", "prefix": "SYM", "to": to_sym}, {"op": "jump", "prefix": "FUN", "to": to_fun}, {"op": "jump", "prefix": "QTY", "to": to_qty}, {"op": "observe", "m": m, "tests": tier == "thorough" and v < 3}]
             jobs.append(_job(seed, f"sys:{i}:{v}", ENV0, ops))
     return jobs
 
@@ -306,6 +333,16 @@ def _create(kind: str, k: int) -> None:
         elif kind == "VectorSymbol":
             from symplyphysics.core.experimental.vectors import VectorSymbol  # pylint: disable=import-outside-toplevel
             keep.append(VectorSymbol("junk"))
+        elif kind == "Symbolic":
+            # the user's own wrappers (average, finite difference, differentials) around their own
+            # symbols, whose display names coincide with those of the shared catalogue symbols
+            from symplyphysics.core.operations import symbolic  # pylint: disable=import-outside-toplevel
+            if i > 0:
+                break  # one pass over all shared symbols, whatever k is
+            for name in sorted(n for n in dir(sx.symbols) if isinstance(getattr(sx.symbols, n), sx.Symbol)):
+                shared = getattr(sx.symbols, name)
+                for wrap in (symbolic.Average, symbolic.FiniteDifference, symbolic.ExactDifferential, symbolic.InexactDifferential):
+                    keep.append(wrap(sx.Symbol(shared.display_name, 1 / units.length, display_latex=shared.display_latex)))
         else:
             raise ValueError(kind)
 
